@@ -204,6 +204,9 @@ class ObjectDomain(LazyGenerators, EffectDomain):
                         touches = True
                     if isinstance(n_, ast.Attribute) and isinstance(n_.ctx, ast.Store) and isinstance(n_.value, ast.Name) and n_.value.id == c.node.name:
                         touches = True
+                    if isinstance(n_, ast.Call) and isinstance(n_.func, ast.Name) and self.classes.lookup_function(module, n_.func.id) is not None \
+                            and any(isinstance(a_, ast.Name) and a_.id == c.node.name for a_ in n_.args):
+                        touches = True   # a function of the module is handed the class (to install members on it)
                 if touches:
                     after.append(s_)
         decorators = [d_ for d_ in c.node.decorator_list if (dotted(d_.func if isinstance(d_, ast.Call) else d_) or "").split(".")[-1] not in ("dataclass", "total_ordering", "final")]
@@ -664,6 +667,13 @@ class ObjectDomain(LazyGenerators, EffectDomain):
                                                                       or self._made_by_repo_function(mod, found[0][0].value))
             cache[name] = found[0][0].value if ok else None
         expr = cache[name]
+        if expr is None and name not in cache.get("<consumers>", ()):
+            # NAME = collections.deque(maxlen=0).extend: the idiom for "run this iterator to its end"
+            for s_ in tree.body:
+                if isinstance(s_, ast.Assign) and len(s_.targets) == 1 and isinstance(s_.targets[0], ast.Name) and s_.targets[0].id == name and self._is_consumer(s_.value):
+                    cache.setdefault("<consumers>", set()).add(name)
+        if name in cache.get("<consumers>", ()):
+            return [val(("builtin", "<consume>"), st)]
         if expr is None:
             return None
         from .absint import Frame
@@ -674,6 +684,12 @@ class ObjectDomain(LazyGenerators, EffectDomain):
         frame = Frame(holder, fr.depth + 1, None, name="<module>", is_method=False)
         frame.caller = fr
         return list(interp.eval(expr, st, frame))
+
+    @staticmethod
+    def _is_consumer(expr):
+        return (isinstance(expr, ast.Attribute) and expr.attr == "extend" and isinstance(expr.value, ast.Call) and (dotted(expr.value.func) or "") in ("collections.deque", "deque")
+                and not expr.value.args and len(expr.value.keywords) == 1 and expr.value.keywords[0].arg == "maxlen" and isinstance(expr.value.keywords[0].value, ast.Constant)
+                and expr.value.keywords[0].value.value == 0)
 
     def default_value(self, expr, func):
         """A parameter default that names something of the module (a class, a function, a builtin function): that thing."""
@@ -1214,7 +1230,7 @@ class ObjectDomain(LazyGenerators, EffectDomain):
         """Call the abstract callable ``fn`` with abstract arguments -> list of Result."""
         pos, kw = list(pos), list(kw)
         tag = fn[0] if isinstance(fn, tuple) and fn else None
-        if tag not in ("func", "boundmethod", "classref", "partial", "method", "inst"):
+        if tag not in ("func", "boundmethod", "classref", "partial", "method", "inst") and not (tag in ("builtin", "pytype") and (fn[1] == "<consume>" or fn[1] in self.CALLED_BY_NAME)):
             # not a callable of the repository whose body will run: it receives (and the log records) what the lists / dicts hold now
             pos = [unbox_deep(v, st) for v in pos]
             kw = [(k, unbox_deep(v, st)) for k, v in kw]
@@ -1230,6 +1246,17 @@ class ObjectDomain(LazyGenerators, EffectDomain):
         if tag == "builtin" and fn[1] in ("getattr", "setattr", "delattr", "hasattr") and not kw:
             got = self._attr_builtin(interp, fn[1], pos, st, fr)
             return got if got is not None else [val(TOP, st)]
+        if tag == "builtin" and fn[1] == "<consume>" and len(pos) == 1 and not kw:
+            # deque(maxlen=0).extend(it): the iterator is run to its end, nothing is kept
+            got = self.force_sequence(interp, pos[0], st, fr)
+            if os.environ.get("TTSA_TRACE_CONSUME"):
+                print("CONSUME", str(pos[0])[:200], "->", None if got is None else [(r.kind, str(r.value)[:80]) for r in got])
+            if got is None:
+                els = interp._exact_elements(unbox(pos[0], st))
+                if els is None:
+                    raise Undecided(f"an iterator the analysis cannot follow is run to its end in {fr.name}")
+                return [val(NONE, st)]
+            return [r if r.kind == "exc" else val(NONE, r.state) for r in got]
         if tag == "pytype":
             if fn[1] == "NoneType" and not pos and not kw:
                 return [val(NONE, st)]
